@@ -36,6 +36,18 @@ PROPS = {
         "lean_modules": ["C04"],
         "rule": "parents of rank 1-3 (quick) / 1-4 (thorough), dims 1-4, 8 element types, 3 constructors; views = slice / lazy transpose / slice of transpose / slice of slice; one of 9 scenarios per program: Memset, Zero, Copy into the view, write through the parent, Clone + writes on both sides, Materialize, SafeT, CopyTo, Copy out; the parent's and the view's full dumps (elements by At, raw window) are compared after the writes",
     },
+    "C06": {
+        "lean_modules": ["C06"],
+        "rule": "every arithmetic op (add sub mul div mod pow) x 14 numeric element types x {tensor-tensor, tensor-scalar, scalar-tensor} x {package function, method} with rotating shapes (rank 0-4 incl. scalar, (1), (1,1), row/column vectors) and operand layouts {contiguous, lazily transposed, offset slice, stepped slice, materialised}; all 25 layout pairs on every shape; refusals (bool/string operands, mismatched dtypes and shapes); value sets with overflow, negatives, zero divisors (floats), NaN/Inf; model terms are evaluated with Go's own operators and compared bit-exactly with the library's result; every operand is dumped after the call",
+    },
+    "C07": {
+        "lean_modules": ["C07"],
+        "rule": "every arithmetic and comparison op x {safe, unsafe, reuse, incr, reuse aliasing the first / second operand, incr aliasing an operand} x {TT, TS, ST} x operand layouts as C06 x destination layouts {contiguous, sliced view, lazily transposed}; identity of the returned tensor and full dumps (elements + raw window) of result, every operand, the destination and the first parent after the call",
+    },
+    "C11": {
+        "lean_modules": ["C11"],
+        "rule": "6 comparisons x all ordered (for eq/ne: all comparable, incl. bool, complex, string) element types x {TT, TS, ST} x {bool result, AsSameType, unsafe, bool reuse, same-type reuse} x operand layouts as C06, values with ties, NaN, extremes; refusals of unordered / mismatched types and shapes",
+    },
     "C13": {
         "lean_modules": ["C13"],
         "rule": "shapes of rank 0-4 with dims 1-4 (quick) / 1-5 (thorough); Shape.S and AP.T calculators vs the executed Slice / T on the same (valid and invalid) arguments; Reshape to every factorisation of the size (and to a wrong size) after slicing, transposing, cloning, materialising; the metadata invariant wf (one stride per axis, size = product of shape, distinct in-window addresses) is evaluated in every dump of every check",
